@@ -126,7 +126,9 @@ Record klink := {
   l_path : bytes;
   l_unlinked : bool;
   l_garbage : option bytes;
-  l_lit_exists : bool }.
+  l_lit_exists : bool;
+  l_errno : probe_errno }.   (* when it does not: what stat() of that string fails with -- from whatever the
+                                 file system looks like there now (gone, parent replaced by a file, symlink loop, ...) *)
 
 Definition k_shown (r : klink) : bytes :=
   l_path r ++ (if l_unlinked r then deleted_sfx else []).
@@ -142,7 +144,7 @@ Definition wf_link (r : klink) : bool :=
       else if suffixb deleted_sfx (l_path r) then l_lit_exists r else true).
 
 Definition to_link (r : klink) : link_res :=
-  LTarget (k_link r) (if l_lit_exists r then SExists else SMissing).
+  LTarget (k_link r) (if l_lit_exists r then SExists else SFails (l_errno r)).
 
 (* ------------------------------------------------------------ exe() with fallback; name() *)
 Inductive withhold := WENOENT | WESRCH | WEACCES.   (* errno of readlink(/proc/pid/exe) *)
